@@ -165,7 +165,8 @@ def check_program(tag, plan, gout, mout, st, fails, have_model=True):
             kind = g['out'].split(' ')[0]
             st['goja_kind'][kind] = st['goja_kind'].get(kind, 0) + 1
             if kind in ('PANIC', 'SYNTAXERROR', 'ERROR', 'CRASH'):
-                fails.append({'kind': 'goja-' + kind.lower(), 'tag': tag, 'id': gid, 'observed': g['out']})
+                fails.append({'kind': 'goja-' + kind.lower(), 'tag': tag, 'id': gid, 'rewrite': name, 'placement': pl,
+                              'strict': strict, 'expected': 'an outcome (the program is valid)', 'observed': g['out']})
                 continue
             # goja vs model
             mid = gid if pl != 'eval' else '%s|%d|%s|%s' % (tag, strict, name, 'global')
@@ -188,14 +189,14 @@ def check_program(tag, plan, gout, mout, st, fails, have_model=True):
                     if g['full'] != o['full']:
                         fails.append({'kind': 'variant-vs-original', 'tag': tag, 'id': gid, 'rewrite': name, 'placement': pl,
                                       'strict': strict, 'expected': o['full'], 'observed': g['full']})
-                    if pl == 'global':
+                    if pl in ('global', 'function'):
                         ch = g['dump'] != o['dump']
-                        d = st['dump_changed'].setdefault(name, [0, 0])
+                        d = st['dump_changed'].setdefault(name + '@' + pl, [0, 0])
                         d[0] += 1 if ch else 0
                         d[1] += 1
                         for cat in ('stack', 'stash', 'dynamic'):
                             if g['ins'].get(cat, 0) != o['ins'].get(cat, 0):
-                                k = name + ':' + cat
+                                k = name + '@' + pl + ':' + cat
                                 st['ins_shift'][k] = st['ins_shift'].get(k, 0) + 1
                 # model: variant vs original, and the Lean-defined rewrite applied to the variant
                 if have_model and pl != 'eval':
@@ -412,19 +413,19 @@ def run_corpus(ctx, harness, model):
     if not items:
         return
     reqs = [json.dumps({'id': fn, 'src': it['src'], 'strict': it.get('strict', False), 'timeout_ms': 3000}) for fn, it in items]
-    outs = {}
-    for l in run_proc([harness], reqs):
-        o = json.loads(l)
-        outs[o['id']] = o
+    outs = run_harness(harness, reqs)
     bad = []
     for fn, it in items:
         got = outs.get(fn, {}).get('out')
         ctx.count(1)
         if got != it['expect']:
             bad.append((fn, it, got))
-    ctx.obligation('corr:corpus', 'correspondence', not bad, '; '.join('%s: expected %s got %s' % (fn, it['expect'], got) for fn, it, got in bad)[:1500])
+    unknown = [b for b in bad if not ctx.known_signature(b[1].get('known_signature'))]
+    ctx.obligation('corr:corpus', 'correspondence', not unknown,
+                   '; '.join('%s: expected %s got %s' % (fn, it['expect'], got) for fn, it, got in unknown)[:1500])
     for fn, it, got in bad:
-        ctx.violation('corpus:' + fn, 'corpus program %s: expected %s, goja gives %s' % (fn, it['expect'], got),
+        ctx.violation(it.get('known_signature') or ('corpus:' + fn),
+                      'corpus program %s (%s): the definitional semantics gives %s, goja gives %s' % (fn, it['src'][:120], it['expect'], got),
                       {'kind': 'program', 'source': it['src'], 'strict': it.get('strict', False), 'expected': it['expect'], 'observed': got})
     ctx.stats['corpus'] = len(items)
 
@@ -444,7 +445,7 @@ def main(ctx):
             model = None
     if model is None:
         ctx.obligation('model-driver', 'correspondence', False, 'model_c02 unavailable: only the metamorphic (goja vs goja) checks run')
-    ctx.audit('GojaModel.C02.Props', expect_min=8)
+    ctx.audit('GojaModel.C02.Props', expect_min=11)
     if ctx.tier == 'thorough':
         ctx.leanchecker('GojaModel.C02.Props')
     harness = ctx.go_build()
@@ -459,7 +460,7 @@ def main(ctx):
     per = (nprog + ncpu * 4 - 1) // (ncpu * 4)
     jobs = [(ctx.seed, s, min(per, nprog - s), harness, model, 1.0) for s in range(0, nprog, per)]
     st, fails = new_stats(), []
-    deadline = ctx.t0 + (75 if ctx.tier == 'quick' else 800)
+    deadline = time.time() + (55 if ctx.tier == 'quick' else 720)
     with Pool(ncpu) as pool:
         for (s1, f1) in pool.imap_unordered(work, jobs):
             merge_stats(st, s1)
